@@ -37,7 +37,7 @@ def make(recipe):
         model_key=recipe["model"], noise=recipe["noise"],
         tilt=recipe["tilt"], drift=recipe["drift"], lag=recipe["lag"],
         seed=recipe["seed"], baseline=recipe.get("baseline", 2e-10),
-        z0=recipe.get("z0", 3e-6))
+        z0=recipe.get("z0", 3e-6), turn=recipe.get("turn", "linear"))
 
 
 def cols(idnt):
@@ -193,6 +193,8 @@ def cases(tier, rng):
     out = []
     for r in recipes:
         out.append((r, [], TIP, {}))
+        # (after a step that rewrote the force column)
+        out.append((r, ["correct_force_offset"], TIP, {}))
         out.append((r, [TIP], "correct_force_offset", {}))
         out.append((r, [TIP, "correct_tip_offset", "correct_force_slope"],
                     "correct_force_offset", {}))
@@ -225,6 +227,19 @@ def cases(tier, rng):
         out.append((r, [TIP], "smooth_height", {}))
         out.append((r, [TIP, "correct_split_approach_retract"],
                     "smooth_height", {}))
+    # height smoothing on long curves whose turning point is smooth and lags
+    # the segment flag: reversals of 1e-4 ... 1e-7 of the range
+    for n, lag in ((3000, 12), (10000, 10), (10000, 30), (30000, 9)):
+        for noise in (0., 1e-11):
+            r = dict(kind="syn", model="hertz_para", noise=noise, n_app=n,
+                     n_ret=n, tilt=0., drift=0., lag=lag, seed=3,
+                     turn="parabolic", z0=4e-6)
+            out.append((r, [], "smooth_height", {}))
+            if not noise:
+                # (force noise enters the tip position; where the piezo
+                # hardly moves it dominates and no window can help: such
+                # a curve is not well-formed for this step)
+                out.append((r, [TIP], "smooth_height", {}))
     if tier == "quick":
         keep = [c for c in out if c[0]["kind"] == "rec"
                 or c[0]["model"] in ("hertz_para", "hertz_cone")]
